@@ -6,6 +6,8 @@
    the code after this property's fix: commits.  "Never Panic" for the class reader as a whole is
    NOT claimed (see stated_not_proved in props/c16.py); the harness covers it by search. *)
 From FB Require Import C16.Model C16.ModelText C16.ModelEv C16.SitesGen C16.Theory C16.Theory2 C16.Theory3 C16.TheoryText C16.TheoryText2 C16.TheoryRD C16.TheoryEv C16.TheorySites C16.TheorySitesReader C16.TheoryDesc C18.Model.
+From FB Require Import C16.ModelClsRead C16.TheoryCls C16.TheoryClsAttr C16.TheoryClsCode C16.TheoryClsCode2 C16.TheoryClsCode3 C16.TheoryClsRead C16.TheoryClsWit.
+From FB Require C01.Opcodes.
 
 (* Labels: a local-variable range is computed without overflow ... *)
 Theorem C16_no_panic_label_range : forall code_len start len, get_or_create_range code_len start len <> Panic.
@@ -286,6 +288,14 @@ Theorem C16_reader_has_no_unwrap_or_index : forallb reader_row_safe_shape reader
 Proof. exact reader_has_no_unwrap. Qed.
 Print Assumptions C16_reader_has_no_unwrap_or_index.
 
+(* the checklist: each of the 231 rows is either inside the whole-reader model (65 rows: its justification names the
+   definition with the checked operation and the lemma that discharges it) or of a kind that is total *)
+Theorem C16_reader_rows_covered :
+  forallb (fun x => row_in_whole_model x || row_total x) reader_model = true
+  /\ length (filter row_in_whole_model reader_model) = 65%nat.
+Proof. exact reader_rows_covered. Qed.
+Print Assumptions C16_reader_rows_covered.
+
 (* the arithmetic behind the GUARDED / BOUNDED / UNREACHABLE entries of the reader's table *)
 Theorem C16_reader_u16_casts_preserve : forall x, x <= 65535 -> as_u16 x = x.
 Proof. exact as_u16_small. Qed.
@@ -435,3 +445,120 @@ Theorem C16_tiny_diff_body_is_nested_loops : forall unesc body,
    close_all diff_close [top'] s').
 Proof. exact tiny_diff_body_is_nested_loops. Qed.
 Print Assumptions C16_tiny_diff_body_is_nested_loops.
+
+(* ------------------------------------------------------------------------------------------ *)
+(* The WHOLE class reader (coq/C16/ModelCls*.v): class_reader::read with its constant pool (pool.rs), labels
+   (labels.rs) and read_code, as a computation over the cursor with outcome Done | Fail | Panic.  Panic: the
+   u8 / usize / i64 arithmetic of the source under overflow checks, `unreachable!()`, the cursor slices of
+   read_code, an allocation made before its data is read that the input does not back (read_u8_vec, read_vec,
+   the switch tables), running out of fuel (pool loop, code loops, element values, bootstrap arguments).   *)
+
+(* step 1: header and constant pool — magic, version, tags, two-slot entries, Utf8 lengths, the pool loop
+   (count - pool.len() iterations suffice), this / super / interfaces with index validation on use *)
+Theorem C16_no_panic_class_header : forall bytes, header_out bytes <> Panic.
+Proof. exact header_no_panic. Qed.
+Print Assumptions C16_no_panic_class_header.
+
+Theorem C16_pool_loop_fuel_suffices : forall fuel count plen acc,
+  (N.to_nat (count - plen) <= fuel)%nat -> forall c, pool_loop fuel count plen acc c <> Panic.
+Proof. exact np_pool_loop. Qed.
+Print Assumptions C16_pool_loop_fuel_suffices.
+
+(* step 2: the skip over fields and methods (attribute_length up to 4 GiB, seeks past the end), the seek back
+   (with_pos) and the member loops with their attribute framing, for every pool and bootstrap table *)
+Theorem C16_no_panic_class_members_skipped : forall bytes, members_skipped_out bytes <> Panic.
+Proof. exact members_skipped_no_panic. Qed.
+Print Assumptions C16_no_panic_class_members_skipped.
+
+Theorem C16_no_panic_class_members : forall v p bsms c, read_members v p bsms c <> Panic.
+Proof. exact np_read_members. Qed.
+Print Assumptions C16_no_panic_class_members.
+
+(* step 3: the attribute arms — element values on bytes (2 * (65 - nesting) + 1 frames suffice), annotations,
+   type annotations with type paths and target infos, the Module attribute, every class attribute *)
+Theorem C16_element_value_reader_fuel_suffices : forall p fuel f nesting,
+  ev_ok f nesting -> (ev_need f nesting <= fuel)%nat -> forall c, ev fuel p f nesting c <> Panic.
+Proof. exact np_ev. Qed.
+Print Assumptions C16_element_value_reader_fuel_suffices.
+
+Theorem C16_no_panic_attribute_readers : forall p level c,
+  read_annotations p c <> Panic /\ read_type_annotations level p c <> Panic /\ read_type_path c <> Panic
+  /\ read_target_info level c <> Panic /\ read_module p c <> Panic /\ skip_attributes c <> Panic
+  /\ read_element_value_unnamed p c <> Panic.
+Proof.
+  exact (fun p level c => conj (np_read_annotations p c) (conj (np_read_type_annotations level p c) (conj (np_read_type_path c)
+         (conj (np_read_target_info level c) (conj (np_read_module p c) (conj (np_skip_attributes c) (np_read_element_value_unnamed p c))))))).
+Qed.
+Print Assumptions C16_no_panic_attribute_readers.
+
+Theorem C16_no_panic_class_attribute : forall v p s c, class_attr v p s c <> Panic.
+Proof. exact np_class_attr. Qed.
+Print Assumptions C16_no_panic_class_attribute.
+
+(* bootstrap arguments on the full pool (every entry kind, names checked): 67 frames suffice *)
+Theorem C16_no_panic_loadable : forall fuel p bsms idx nesting budget,
+  nesting <= 65 -> (67 <= fuel + N.to_nat nesting)%nat -> loadable fuel p bsms idx nesting budget <> Panic.
+Proof. exact loadable_np. Qed.
+Print Assumptions C16_no_panic_loadable.
+
+(* step 4: read_code.  The first pass, for every code array and every declared length ... *)
+Theorem C16_no_panic_first_pass : forall cl code, pass1 cl code <> Panic.
+Proof. exact pass1_np. Qed.
+Print Assumptions C16_no_panic_first_pass.
+
+(* ... the loops of both passes: an invariant that keeps the position inside the code and a body that consumes
+   input bound the iterations by the length (fuel = length + 1 suffices) *)
+Theorem C16_code_loop_fuel_suffices : forall (A : Type) cl (body : N -> A -> M A) (I : rcur -> Prop),
+  (forall c, I c -> rpos c <= cl) ->
+  (forall pos a c, I c -> body pos a c <> Panic) ->
+  (forall pos a c a' c', I c -> body pos a c = Done (a', c') -> I c' /\ (rlen c' < rlen c)%nat) ->
+  forall fuel a c, I c -> (rlen c < fuel)%nat -> code_loop fuel cl body a c <> Panic.
+Proof. exact @code_loop_np. Qed.
+Print Assumptions C16_code_loop_fuel_suffices.
+
+(* ... the regenerated opcode tables of the two passes (coq/C01/Opcodes.v) agree on the operand bytes of every
+   opcode, plain and wide, and the u8 arithmetic of the short load / store forms stays in range ... *)
+Theorem C16_opcode_tables_agree : forall op,
+  compat (Opcodes.pass1_class op) (Opcodes.pass2_entry op) = true
+  /\ wide_compat (Opcodes.pass1_wide op) (Opcodes.pass2_wide_entry op) = true /\ short_ok op = true.
+Proof. exact (fun op => conj (tables_compat op) (conj (tables_wide_compat op) (tables_short_ok op))). Qed.
+Print Assumptions C16_opcode_tables_agree.
+
+(* ... hence the two passes leave every instruction at the same cursor (whenever both accept it) ... *)
+Theorem C16_passes_in_lockstep : forall cl pos s1 p bsms st fr c s1' c1 fr' c2,
+  p1_insn cl pos s1 c = Done (s1', c1) -> p2_insn p bsms cl st pos fr c = Done (fr', c2) -> c1 = c2.
+Proof. exact (fun cl pos s1 p bsms st fr c s1' c1 fr' c2 H1 H2 => proj1 (lockstep cl pos s1 p bsms st fr c s1' c1 fr' c2 H1 H2)). Qed.
+Print Assumptions C16_passes_in_lockstep.
+
+(* ... and the second pass never panics on code the first pass accepted: its cursor slice stays inside the code
+   (reads only), and `Vec::with_capacity(npairs)` of a lookupswitch is backed by the pairs the first pass read *)
+Theorem C16_no_panic_second_pass : forall p bsms cl code st fr st0,
+  cl <= 65535 -> N.of_nat (length code) = cl -> pass1 cl code = Done st0 -> pass2 p bsms cl code st fr <> Panic.
+Proof. exact pass2_np. Qed.
+Print Assumptions C16_no_panic_second_pass.
+
+Theorem C16_no_panic_read_code : forall v p bsms c, read_code v p bsms c <> Panic.
+Proof. exact np_read_code. Qed.
+Print Assumptions C16_no_panic_read_code.
+
+(* the composition: class_reader::read with ANY visitor (interests, declined class / members / code, refusal of
+   duplicates), and duke::read_class, on every byte string *)
+Theorem C16_no_panic_read_class_any_visitor : forall v bytes, read_class_with v bytes <> Panic.
+Proof. exact read_class_with_no_panic. Qed.
+Print Assumptions C16_no_panic_read_class_any_visitor.
+
+Theorem C16_no_panic_read_class : forall bytes, read_class_out bytes <> Panic.
+Proof. exact read_class_no_panic. Qed.
+Print Assumptions C16_no_panic_read_class.
+
+(* non-vacuity: real class files are accepted, truncated ones refused *)
+Theorem C16_class_fixtures_accepted : class_fixtures_accepted.
+Proof. exact class_fixtures_accepted_hold. Qed.
+Print Assumptions C16_class_fixtures_accepted.
+
+(* the model can express what the theorems exclude: without the position check of the first pass, without a
+   first pass before the second, with a 32-bit count for read_vec, outside the match ranges of the u8
+   arithmetic, with too little fuel — Panic (computed) *)
+Theorem C16_class_model_can_panic : class_model_witnesses.
+Proof. exact class_model_witnesses_hold. Qed.
+Print Assumptions C16_class_model_can_panic.
